@@ -35,6 +35,29 @@ pub fn run(mut config: Config) -> ::anyhow::Result<()> {
         config.socket_workers = available_parallelism().map(Into::into).unwrap_or(1);
     };
 
+    // Refuse limits that allow responses which don't fit in the response
+    // buffer, since such responses are dropped
+    {
+        let response_buffer_len = workers::socket::response_buffer_len(&config);
+        let response_peer_len = if config.network.use_ipv6 { 18 } else { 6 };
+
+        let max_announce_response_len = 20 + config.protocol.max_response_peers * response_peer_len;
+        let max_scrape_response_len = 8 + config.protocol.max_scrape_torrents as usize * 12;
+
+        if max_announce_response_len > response_buffer_len {
+            return Result::Err(anyhow::anyhow!(
+                "protocol.max_response_peers can not be set higher than {}, since responses would not fit in the response buffer",
+                (response_buffer_len - 20) / response_peer_len
+            ));
+        }
+        if max_scrape_response_len > response_buffer_len {
+            return Result::Err(anyhow::anyhow!(
+                "protocol.max_scrape_torrents can not be set higher than {}, since responses would not fit in the response buffer",
+                (response_buffer_len - 8) / 12
+            ));
+        }
+    }
+
     let num_sockets_per_worker =
         if config.network.use_ipv4 { 1 } else { 0 } + if config.network.use_ipv6 { 1 } else { 0 };
 
